@@ -300,6 +300,18 @@ def gen_C02(rng, tier):
                 cases.append("mbiwalk " + hx(region(t, l8, reserved)))
                 count(dist["total_mod8"], str(t % 8))
                 count(dist["last8"], name)
+    # pointers that are not 8-aligned (C02_misaligned): every address class 1..7 (0 for contrast) x total sizes 0..40 with
+    # the declared region valid, and total sizes up to 2^32-1 with nothing but the 8 header bytes valid (a read beyond
+    # them faults at the guard page)
+    dist["misaligned_ptr"] = 0
+    for a in range(0, 8):
+        for t in range(0, 41):
+            cases.append("mbimis %d %s" % (a, hx(region(t, last8_variants["end"], 0))))
+            dist["misaligned_ptr"] += 1
+        if a:
+            for t in (8, 9, 16, 4096, 0x10000, 0x7FFFFFF8, 0x80000000, 0xFFFFFFF8, 0xFFFFFFFF):
+                cases.append("mbimis %d %s" % (a, hx(E.u32(t) + E.u32(0))))
+                dist["misaligned_ptr"] += 1
     # reserved word looking like an end tag (total = 8: the header itself is "the last 8 bytes")
     for t in (0, 8):
         cases.append("mbiwalk " + hx(E.u32(t) + E.u32(8)))
@@ -529,6 +541,18 @@ def gen_C10(rng, tier):
                     count(dist["length_mod8"], str(length % 8))
                     count(dist["magic"], str(magic_ok))
                     count(dist["cksum"], ck)
+    # pointers that are not 8-aligned (C10_misaligned): address classes 1..7 (0 for contrast) x lengths 0..48 x valid /
+    # invalid magic and checksum with the declared region valid, and lengths up to 2^32-1 with only the 16 header bytes valid
+    dist["misaligned_ptr"] = 0
+    for a in range(0, 8):
+        for length in range(0, 49):
+            for magic_ok, ck in ((True, "ok"), (False, "ok"), (True, "plus1")):
+                cases.append("hdrmis %d %s" % (a, hx(region(length, 0, magic_ok, ck))))
+                dist["misaligned_ptr"] += 1
+        if a:
+            for length in (16, 17, 24, 4096, 0x10000, 0x7FFFFFF8, 0x80000000, 0xFFFFFFF8, 0xFFFFFFFF):
+                cases.append("hdrmis %d %s" % (a, hx(E.u32(E.HDR_MAGIC) + E.u32(0) + E.u32(length) + E.u32(E.checksum(E.HDR_MAGIC, 0, length)))))
+                dist["misaligned_ptr"] += 1
     # realistic headers (0..10 tags of the 11 kinds) and one mutation of each: the accepting side of the "iff"
     dist["realistic"] = {}
     for _ in range(10000 if tier == "thorough" else 250):
